@@ -68,7 +68,8 @@ AcceptFilter(xx, ww, b, raised, out) ==
         ELSE LET i == CHOOSE i \in bad : \A k \in bad : i <= k IN
              IF ~b /\ InBoundary(xx, ww, i) THEN "boundary_value_not_returned_unchanged"
              ELSE "output_is_not_the_renormalised_weighted_mean"
-\* approximate mode: W = weights * 10^4 (rounded), o = outputs * 1000 (rounded), NaN outputs as NaNv
+\* approximate mode: W = weights * 10^4 (rounded), o = outputs * 1000 (rounded), NaN outputs as ONaN
+ONaN == 99999999
 WinVals(xx, ww, i) == {xx[Src(i, j, Half(ww))] : j \in ValidJ(xx, ww, i)}
 SetMin(S) == CHOOSE v \in S : \A u \in S : v <= u
 SetMax(S) == CHOOSE v \in S : \A u \in S : v >= u
@@ -76,9 +77,9 @@ AcceptFilterApprox(xx, W, b, raised, o) ==
    IF CallUndef(xx, W) THEN "ok"
    ELSE IF raised THEN "raised"
    ELSE IF Len(o) # Len(xx) THEN "output_length_differs"
-   ELSE IF \E i \in DOMAIN xx : ~b /\ InBoundary(xx, W, i) /\ o[i] # (IF xx[i] = NaNv THEN NaNv ELSE 1000 * xx[i]) THEN "boundary_value_not_returned_unchanged"
+   ELSE IF \E i \in DOMAIN xx : ~b /\ InBoundary(xx, W, i) /\ o[i] # (IF xx[i] = NaNv THEN ONaN ELSE 1000 * xx[i]) THEN "boundary_value_not_returned_unchanged"
    ELSE IF \E i \in DOMAIN xx : (b \/ ~InBoundary(xx, W, i)) /\
-              (o[i] = NaNv \/ o[i] < 1000 * SetMin(WinVals(xx, W, i)) - 1 \/ o[i] > 1000 * SetMax(WinVals(xx, W, i)) + 1) THEN "output_outside_the_hull_of_its_window"
+              (o[i] = ONaN \/ o[i] < 1000 * SetMin(WinVals(xx, W, i)) - 1 \/ o[i] > 1000 * SetMax(WinVals(xx, W, i)) + 1) THEN "output_outside_the_hull_of_its_window"
    ELSE IF \E i \in DOMAIN xx : (b \/ ~InBoundary(xx, W, i)) /\
               GAbs(o[i] * DenAt(xx, W, i) - 1000 * NumAt(xx, W, i)) > 20 * DenAt(xx, W, i) THEN "output_is_not_the_renormalised_weighted_mean"
    ELSE "ok"
